@@ -14,7 +14,7 @@ try:
     os.makedirs(wt + '/_out', exist_ok=True)
     shutil.copy(src + '/demo.py', wt + '/_out/demo.py')
     rc, out = sh('/venv/bin/python _out/demo.py', wt); res['demo_pristine_rc'] = rc
-    rc, out = sh(f'git apply {os.path.abspath(src)}/patch.diff', wt); res['apply_rc'] = rc; res['apply_out'] = out[-500:]
+    rc, out = sh(f'git apply {os.path.abspath(src)}/{'patch_rebased.diff' if os.path.exists(src + '/patch_rebased.diff') else 'patch.diff'}', wt); res['apply_rc'] = rc; res['apply_out'] = out[-500:]
     rc, out = sh('/venv/bin/python -m pytest -q -p no:cacheprovider tests 2>&1 | tail -5', wt)
     m = re.search(r'(\d+) failed, (\d+) passed', out) or re.search(r'(\d+) passed', out); res['suite'] = m.group(0) if m else out[-300:]
     res['suite_failed_tests'] = re.findall(r'FAILED (\S+)', out)
